@@ -62,6 +62,7 @@ class _Ctx:
         self.solver_calls = 0
         self.fail_at: int | None = None  # raise on the k-th solver call (1-based) of the current op
         self.cand_pipeline: list[dict] = []
+        self.blockmode = False
 
 
 CTX = _Ctx()
@@ -182,7 +183,35 @@ def _attractor_test(sd, node_id, graph, pivot, avoid_set):
             LOOPS.append(rec_)
 
 
+# ---- block expansion: the "is this block clean?" verdicts (queries on component sub-diagrams) ----
+_orig_cand = SuccessionDiagram.node_attractor_candidates
+_orig_seeds = SuccessionDiagram.node_attractor_seeds
+_sub_depth = [0]
+
+
+def _sub_query(orig):
+    def wrapped(self, node_id, *args, **kwargs):
+        outer = CTX.blockmode and self is not CTX.active and _sub_depth[0] == 0
+        if outer:
+            _sub_depth[0] += 1
+        try:
+            r = orig(self, node_id, *args, **kwargs)
+            if outer:
+                CTX.orc.append(len(r) == 0)
+            return r
+        except RuntimeError:
+            if outer:
+                CTX.orc.append(False)
+            raise
+        finally:
+            if outer:
+                _sub_depth[0] -= 1
+    return wrapped
+
+
 def install():
+    SuccessionDiagram.node_attractor_candidates = _sub_query(_orig_cand)
+    SuccessionDiagram.node_attractor_seeds = _sub_query(_orig_seeds)
     _symmod.symbolic_attractor_test = _attractor_test
     _verif_hooks.set_sink(_loop_sink)
     SuccessionDiagram._expand_one_node = _expand_one_node
@@ -333,6 +362,7 @@ def run_op(sd: SuccessionDiagram, op: dict, timeout_s: float = 20.0) -> tuple[Su
     LOOPS.clear()
     CTX.solver_calls = 0
     CTX.fail_at = ev["fail_at"] or None
+    CTX.blockmode = kind == "block"
     WORK.take()
     if kind in ("min", "skipmin") and 0 <= n < len(sd):
         start_space = dict(sd.node_data(n)["space"])
@@ -448,6 +478,7 @@ def run_op(sd: SuccessionDiagram, op: dict, timeout_s: float = 20.0) -> tuple[Su
         signal.setitimer(signal.ITIMER_REAL, 0)
         signal.signal(signal.SIGALRM, old)
         CTX.fail_at = None
+        CTX.blockmode = False
     if ret is True:
         ret = "true"
     elif ret is False:
@@ -458,7 +489,7 @@ def run_op(sd: SuccessionDiagram, op: dict, timeout_s: float = 20.0) -> tuple[Su
     ev["out"] = out
     ev["xl"] = list(CTX.xl)
     ev["solver_calls"] = CTX.solver_calls
-    ev["orc"] = list(CTX.orc) if kind == "aseeds" else []
+    ev["orc"] = list(CTX.orc) if kind in ("aseeds", "block") else []
     if CTX.mts and kind in ("min", "aseeds", "skipmin", "skiprem"):
         ev["mts"] = [vec(start_space | x, names) for x in CTX.mts[0]]
     ev["loops"] = list(LOOPS)
